@@ -2,6 +2,7 @@
  * counts allocations requested while a libvna call is in progress, fails the k-th one on
  * request, and keeps the set of live blocks allocated by the library. */
 #include "vh.h"
+#include <sanitizer/common_interface_defs.h>
 
 void *__real_malloc(size_t);
 void *__real_calloc(size_t, size_t);
@@ -57,6 +58,8 @@ static bool fault(void)
     ++vh_alloc_calls;
     if (vh_fault_at != 0 && vh_alloc_calls == vh_fault_at) {
 	++vh_fault_fired;
+	if (getenv("VH_FAULT_TRACE") != NULL)	/* debugging aid: where the injected failure hit */
+	    __sanitizer_print_stack_trace();
 	errno = ENOMEM;
 	return true;
     }
